@@ -3,6 +3,7 @@
 package codec
 
 import (
+	"bytes"
 	"fmt"
 
 	"verif/rng"
@@ -66,6 +67,8 @@ func Gen(p GenParams) *wire.Snap {
 		nd = 1 + r.Intn(3)
 	case "longnames":
 		nd = 1 + r.Intn(3)
+	case "compressible":
+		nd = 1 + r.Intn(3)
 	}
 	for di := 0; di < nd; di++ {
 		d := wire.DBI{}
@@ -114,6 +117,16 @@ func Gen(p GenParams) *wire.Snap {
 				}
 			}
 			add(i, kl, vl)
+		}
+		if p.Class == "compressible" {
+			// content that gzip shrinks by far more than 1:100 (zero-filled, 0xff-filled, one repeated byte): the
+			// blob is tiny, the decoded message is not
+			fill := rng.Pick(r, byte(0), 0xff, 'a')
+			for i := 0; i < 1+r.Intn(6); i++ {
+				vl := rng.Pick(r, 4096, 65536, 1<<20, 3<<20)
+				kv := wire.KV{Key: genKey(r, 1000+i, 8), Val: bytes.Repeat([]byte{fill}, vl), TS: uint64(1700000000000000000 + i)}
+				d.Entries = append(d.Entries, kv)
+			}
 		}
 		if p.Class == "hugeval" {
 			// single entries larger than the next growth step of the buffer
